@@ -10,6 +10,7 @@ import (
 	"github.com/hashicorp/consul/internal/verifmc/c03"
 	"github.com/hashicorp/consul/internal/verifmc/c04"
 	"github.com/hashicorp/consul/internal/verifmc/c05"
+	"github.com/hashicorp/consul/internal/verifmc/c07"
 	"github.com/hashicorp/consul/internal/verifmc/c10"
 	"github.com/hashicorp/consul/internal/verifmc/ev"
 )
@@ -23,6 +24,7 @@ var checks = map[string]checkDef{
 	"C03": {"model_checking", c03.Run},
 	"C04": {"model_checking", c04.Run},
 	"C05": {"model_checking", c05.Run},
+	"C07": {"model_checking", c07.Run},
 	"C10": {"exploration", c10.Run},
 }
 
